@@ -35,7 +35,7 @@ class Interp(ExprMixin, StmtMixin, CallMixin):
             si.f32_bytes: self.i_f32_bytes, si.f64_bytes: self.i_f64_bytes, si.ghost: self.i_ghost,
             si.fresh_int: self.i_fresh_int, si.f32_of_bytes: self.i_f32_of_bytes, si.f64_of_bytes: self.i_f64_of_bytes, si.prefix_sum: self.i_prefix_sum, si.fresh_bool: self.i_fresh_bool,
             si.region_of: self.i_region_of, si.region_size: self.i_region_size, si.key_of: self.i_key_of, si.reach: self.i_reach,
-            si.reach_transitive: self.i_reach_transitive, si.reach_closed: self.i_reach_closed, si.reach_depth: self.i_reach_depth, si.field_seq: self.i_field_seq,
+            si.reach_transitive: self.i_reach_transitive, si.reach_closed: self.i_reach_closed, si.reach_depth: self.i_reach_depth, si.field_seq: self.i_field_seq, si.has_attr_text: self.i_has_attr_text,
         })
         from . import models_threading
         self.models.update(models_threading.build())
@@ -320,6 +320,15 @@ class Interp(ExprMixin, StmtMixin, CallMixin):
         a, b = z3.Int("ca!"), z3.Int("cb!")
         n = cell.n
         return mk("bool", z3.ForAll([a, b], z3.Implies(z3.And(F(a, b), a >= 0, a < n), z3.And(b >= 0, b < n)), patterns=[F(a, b)]))
+
+    def i_has_attr_text(self, I, args, kw):
+        obj, name = args
+        sq = self.as_seq(name)
+        p = seqops.to_py(sq)
+        if p is not None:
+            return getattr(obj, p, None) is not None
+        arr, n, _ = seqops.as_array(sq)
+        return mk("bool", models.has_attr_fn(obj)(arr, to_term(n, "int")))
 
     def i_field_seq(self, I, args, kw):
         cell, _ = self._region_cell(args[0])
